@@ -147,6 +147,8 @@ def run_for(pid, root, rep, seed=0, jobs=16):
         variants.append(rename_locals(module, fn))
     for (module, fn) in fns[:4]:
         variants.append(insert_noise(module, fn))
+    for (module, fn) in fns[:5]:
+        variants.append(swap_independent(module, fn, seed % 3))
     if not variants:
         rep.selftest = {'variants': 0}
         return
@@ -270,3 +272,65 @@ def _insert_noise(funcname, text):
 
 def insert_noise(file, funcname):
     return Variant('neutral: no-op statements inserted in %s' % funcname, 'neutral', file, transform=_functools.partial(_insert_noise, funcname))
+
+
+def _swap_independent(funcname, which, text):
+    """swap the `which`-th pair of adjacent, mutually independent simple assignments inside function `funcname`"""
+    try:
+        tree = _ast.parse(text)
+    except SyntaxError:
+        return None
+    target = None
+    for n in _ast.walk(tree):
+        if isinstance(n, (_ast.FunctionDef, _ast.AsyncFunctionDef)) and n.name == funcname:
+            target = n
+            break
+    if target is None:
+        return None
+
+    def rw(s):
+        w, r = set(), set()
+        for n in _ast.walk(s):
+            if isinstance(n, _ast.Name):
+                (w if isinstance(n.ctx, (_ast.Store, _ast.Del)) else r).add(n.id)
+        # subscript/attribute stores write their base and read it
+        tg = s.targets if isinstance(s, _ast.Assign) else [s.target]
+        for t in tg:
+            b = t
+            while isinstance(b, (_ast.Subscript, _ast.Attribute)):
+                b = b.value
+            if isinstance(b, _ast.Name):
+                w.add(b.id)
+        if isinstance(s, _ast.AugAssign):
+            r |= w
+        has_call = any(isinstance(n, _ast.Call) for n in _ast.walk(s))
+        return w, r, has_call
+    pairs = []
+    for n in _ast.walk(target):
+        for field in ('body', 'orelse'):
+            blk = getattr(n, field, None)
+            if not isinstance(blk, list):
+                continue
+            for a, b in zip(blk, blk[1:]):
+                if isinstance(a, (_ast.Assign, _ast.AugAssign)) and isinstance(b, (_ast.Assign, _ast.AugAssign)) and a.end_lineno < b.lineno \
+                        and a.col_offset == b.col_offset:
+                    wa, ra, ca = rw(a)
+                    wb, rb, cb = rw(b)
+                    if ca and cb:
+                        continue      # two calls may share hidden state (rng draws): keep their order
+                    if wa & (wb | rb) or wb & ra:
+                        continue
+                    pairs.append((a, b))
+    if which >= len(pairs):
+        return None
+    a, b = pairs[which]
+    lines = text.split('\n')
+    sa = lines[a.lineno - 1:a.end_lineno]
+    sb = lines[b.lineno - 1:b.end_lineno]
+    mid = lines[a.end_lineno:b.lineno - 1]
+    lines[a.lineno - 1:b.end_lineno] = sb + mid + sa
+    return '\n'.join(lines)
+
+
+def swap_independent(file, funcname, which=0):
+    return Variant('neutral: independent statements %d swapped in %s' % (which, funcname), 'neutral', file, transform=_functools.partial(_swap_independent, funcname, which))
